@@ -105,7 +105,7 @@ CLAIMED['C06'] = {
             'permitted rendering of every tree, with redundant parentheses and permitted line breaks, parses to that tree modulo flatten, any number of precedence '
             'levels, full and simple parser), soundness and totality, unambiguity, precedence, lazy left-to-right evaluation, left-to-right composition of |; the '
             'pre-fix parser (operator accepted as closing parenthesis) is refuted by witness; operator and truth tables of the six host types regenerated from the '
-            'live Grammar objects on every run; every simple-expression context ends its argument before an operator (theorem + regenerated table). 14 theorems closed under the global context. Tie: ~5000 cases per quick run (permitted, arbitrary-layout and '
+            'live Grammar objects on every run; every simple-expression context ends its argument before an operator (theorem + regenerated table). 14 theorems closed under the global context (+ 3 source-tie theorems built and assumption-checked with this check). Tie: ~5000 cases per quick run (permitted, arbitrary-layout and '
             'malformed streams for six host types, 13 nested contexts, 272 end-to-end cases; each parsed object evaluated 1-3 times).',
     'note': 'Modelled, not verified: _Parser (expression/parser.py), the TokenParser primitives it calls, Negation/Conjunction/Disjunction.matches_w_trace, '
             'SequenceStringTransformer.transform. Token level: a primitive with its arguments is one word; tokenisation is C09. The set of permitted line breaks is '
